@@ -84,3 +84,246 @@ Proof.
   - destruct (reported new) eqn:Hrn; [reflexivity|]. rewrite <- Hls.
     destruct (ws_last st); [reflexivity|]. exfalso. apply Hrep; [discriminate | reflexivity].
 Qed.
+
+(** ** job-level cases in the scope of the full spec (log handler, permanent sink, no kill) and burst cases *)
+Lemma orun_eqb_eq a b : orun_eqb a b = true -> a = b.
+Proof.
+  unfold orun_eqb. intros H. repeat (apply andb_true_iff in H; destruct H as [H ?]).
+  destruct a, b; cbn in *.
+  repeat match goal with
+         | Hs : (_ =? _)%Z = true |- _ => apply Z.eqb_eq in Hs
+         | Hs : evlist_eqb _ _ = true |- _ => apply evlist_eqb_eq in Hs
+         | Hs : Bool.eqb _ _ = true |- _ => apply Bool.eqb_prop in Hs
+         end.
+  subst. reflexivity.
+Qed.
+
+Lemma orunlist_eqb_eq l1 l2 : list_eqb orun_eqb l1 l2 = true -> l1 = l2.
+Proof.
+  revert l2. induction l1 as [|a l1 IH]; destruct l2 as [|b l2]; cbn; try discriminate; [auto|].
+  intros H. apply andb_true_iff in H. destruct H as [H1 H2]. rewrite (orun_eqb_eq _ _ H1), (IH _ H2). reflexivity.
+Qed.
+
+Lemma zseq_length a n : length (zseq a n) = n.
+Proof. revert a. induction n; intros a; cbn; [reflexivity | rewrite IHn; reflexivity]. Qed.
+
+Lemma skipn_zseq : forall k a n, skipn k (zseq a n) = zseq (a + Z.of_nat k) (n - k).
+Proof.
+  induction k as [|k IH]; intros a n.
+  - cbn [skipn]. rewrite Z.add_0_r, Nat.sub_0_r. reflexivity.
+  - destruct n as [|n]; [reflexivity|]. cbn [zseq skipn]. rewrite IH. f_equal. lia.
+Qed.
+
+Lemma is_prefix_refl l : is_prefix l l = true.
+Proof. rewrite <- (app_nil_r l) at 2. apply is_prefix_app. Qed.
+
+Lemma forallb_filter_all (f : Z -> bool) l : forallb f l = true -> filter f l = l.
+Proof.
+  induction l as [|x l IH]; cbn; [auto|]. intros H. apply andb_true_iff in H. destruct H as [Hx Hl].
+  rewrite Hx, (IH Hl). reflexivity.
+Qed.
+Lemma forallb_filter_none (f : Z -> bool) l : forallb (fun x => negb (f x)) l = true -> filter f l = [].
+Proof.
+  induction l as [|x l IH]; cbn; [auto|]. intros H. apply andb_true_iff in H. destruct H as [Hx Hl].
+  destruct (f x); [discriminate | exact (IH Hl)].
+Qed.
+
+Lemma partition_bool (bad : Z -> bool) (log : list (event Z)) :
+  forallb (fun x => negb (bad x)) (delivered log) = true -> forallb bad (reported log) = true ->
+  reported log = filter bad (flat log).
+Proof.
+  induction log as [|e log IH]; [reflexivity|].
+  change (flat (e :: log)) with (ev_flat e ++ flat log).
+  change (delivered (e :: log)) with (ev_deliv e ++ delivered log).
+  change (reported (e :: log)) with (ev_rep e ++ reported log).
+  rewrite !forallb_app, filter_app. intros Hd Hr.
+  apply andb_true_iff in Hd. destruct Hd as [Hd1 Hd2]. apply andb_true_iff in Hr. destruct Hr as [Hr1 Hr2].
+  rewrite (IH Hd2 Hr2). destruct e as [b|x]; cbn [ev_flat ev_deliv ev_rep] in *.
+  - rewrite (forallb_filter_none _ _ Hd1). reflexivity.
+  - rewrite (forallb_filter_all _ _ Hr1). reflexivity.
+Qed.
+
+Lemma scripted_fc bad fc call l : zmem (Z.of_nat call) fc = true ->
+  scripted bad fc call l = Some (1000 + Z.of_nat call)%Z.
+Proof. unfold scripted. intros ->. reflexivity. Qed.
+Lemma scripted_nofc bad fc call l : zmem (Z.of_nat call) fc = false ->
+  scripted bad fc call l = find (fun x => zmem x bad) l.
+Proof. unfold scripted. intros ->. reflexivity. Qed.
+
+Lemma scripted_code_nonneg bad fc : forallb (Z.leb 0) bad = true ->
+  forall call l e, scripted bad fc call l = Some e -> (0 <= e)%Z.
+Proof.
+  intros Hb call l e. destruct (zmem (Z.of_nat call) fc) eqn:Hm.
+  - rewrite (scripted_fc _ _ _ _ Hm). intros H. assert (He : e = (1000 + Z.of_nat call)%Z) by congruence. pose proof (Nat2Z.is_nonneg call). lia.
+  - rewrite (scripted_nofc _ _ _ _ Hm).
+    intros Hf. apply find_some in Hf. destruct Hf as [_ Hm2]. unfold zmem in Hm2.
+    apply existsb_exists in Hm2. destruct Hm2 as (y & Hy & He). apply Z.eqb_eq in He. subst y.
+    rewrite forallb_forall in Hb. apply Z.leb_le. apply Hb. exact Hy.
+Qed.
+
+Lemma limit_hit_exact k a : limit_hit k a = false -> limit_hit k (a + 1) = true -> k = (a + 1)%nat.
+Proof.
+  unfold limit_hit. intros H1 H2. apply andb_true_iff in H2. destruct H2 as [Hk H2].
+  apply Nat.ltb_lt in Hk. apply Nat.leb_le in H2. rewrite (proj2 (Nat.ltb_lt 0 k) Hk) in H1. cbn in H1.
+  apply Nat.leb_gt in H1. lia.
+Qed.
+
+Definition jinv (st : jstate Z) (n : nat) : Prop :=
+  (j_tok st <= n)%nat /\ clean st /\ last_ok (fun z => (0 <= z)%Z) (j_ws st).
+
+Lemma run_killed_none inner v cfg src (st : jstate Z) :
+  c_kill cfg = None -> r_killed (fst (run inner v cfg src st)) = false.
+Proof.
+  intros Hk. unfold run.
+  destruct (sync_pages inner v cfg (S (length src)) src (j_tok st) false 0 _) as [[[e cnt] tok] ws].
+  destruct e; cbn; try (destruct (j_wrapped st || c_log cfg); [destruct (ws_last ws)|]; cbn);
+    unfold kill_in; rewrite Hk; reflexivity.
+Qed.
+
+Section StrictCase.
+  Variable c : tcase.
+  Hypothesis Hlog : t_log c = true.
+  Hypothesis Hfc : t_failcalls c = [].
+  Hypothesis Hkill : (t_killAt c <? 0)%Z = true.
+  Hypothesis Hbad : forallb (Z.leb 0) (t_bad c) = true.
+
+  Let cfg := cfg_of c.
+  Let inner := inner_of c.
+
+  Lemma cfg_log : c_log cfg = true. Proof. exact Hlog. Qed.
+  Lemma cfg_kill : c_kill cfg = None. Proof. unfold cfg, cfg_of. cbn. rewrite Hkill. reflexivity. Qed.
+  Lemma cfg_batch : (1 <= c_batch cfg)%nat.
+  Proof. unfold cfg, cfg_of. cbn. destruct (t_batch c <? 1)%Z eqn:Hb; [lia|]. apply Z.ltb_ge in Hb. lia. Qed.
+  Lemma strict_true : strict c = true.
+  Proof. unfold strict. rewrite Hlog, Hfc, Hkill. reflexivity. Qed.
+  Lemma inner_nonneg : forall call l e, inner call l = Some e -> (0 <= e)%Z.
+  Proof. apply scripted_code_nonneg. exact Hbad. Qed.
+
+  Lemma run_spec n (st : jstate Z) :
+    jinv st n ->
+    let r := fst (run inner VFixed cfg (zseq 0 n) st) in
+    let st' := snd (run inner VFixed cfg (zseq 0 n) st) in
+    spec_run c (j_tok st) n (to_orun r) = true
+    /\ Z.to_nat (or_tok (to_orun r)) = j_tok st' /\ jinv st' n.
+  Proof.
+    intros (Htok & Hclean & Hlast).
+    set (src := zseq 0 n).
+    assert (Hlen : length src = n) by apply zseq_length.
+    pose proof (run_fixed inner cfg src st cfg_log cfg_kill cfg_batch ltac:(lia) Hclean) as F.
+    pose proof (run_pending inner VFixed cfg src st) as P.
+    pose proof (run_last_ok inner (fun z => (0 <= z)%Z) inner_nonneg VFixed cfg src st Hlast) as L.
+    pose proof (run_killed_none inner VFixed cfg src st cfg_kill) as K.
+    destruct (run inner VFixed cfg src st) as [r st'] eqn:R. cbn [fst snd] in *.
+    destruct F as (Hj & Hok & Herr & Hnot & Hhit & Htk' & Htkle & Hwr & Hcl).
+    destruct P as (_ & Hp & _). destruct L as [Hl' Hcode].
+    split; [|split; [cbn; rewrite Nat2Z.id; symmetry; exact Htk' | unfold jinv; split; [lia | split; [exact Hcl | exact Hl']]]].
+    assert (Hgood : forallb (is_good c) (delivered (r_log r)) = true).
+    { unfold inner, inner_of in Hj. apply (just_good _ _ _ Hj). }
+    assert (Hbadr : forallb (is_bad c) (reported (r_log r)) = true).
+    { unfold inner, inner_of in Hj. rewrite Hfc in Hj. apply (just_bad _ _ Hj). }
+    pose proof (partition_bool (is_bad c) (r_log r) Hgood Hbadr) as Hpart.
+    assert (Hrest : zseq (Z.of_nat (j_tok st)) (n - j_tok st) = skipn (j_tok st) src).
+    { unfold src. rewrite skipn_zseq. f_equal. }
+    assert (Hnn : forall z, r_err r = PInner z -> (perr_code (r_err r) =? -1)%Z = false /\ (perr_code (r_err r) =? -3)%Z = false
+                                              /\ (0 <=? perr_code (r_err r))%Z = true).
+    { intros z Hz. pose proof (Hcode z Hz) as Hz0. rewrite Hz. cbn. repeat split; [apply Z.eqb_neq | apply Z.eqb_neq | apply Z.leb_le]; lia. }
+    unfold spec_run. rewrite strict_true. cbn [to_orun or_ev or_err or_tok or_pending or_killed].
+    rewrite Hrest, K. cbn [andb]. rewrite Hgood, Hbadr. cbn [andb].
+    set (k := Z.to_nat (t_maxItems c)) in *.
+    change (c_maxItems cfg) with k in *.
+    set (rest := skipn (j_tok st) src) in *.
+    assert (Hpend : (if r_pending r then t_rerun c && negb (perr_code (r_err r) =? -1)%Z && negb (perr_code (r_err r) =? -3)%Z else true) = true).
+    { destruct (r_pending r) eqn:Hpd; [|reflexivity]. destruct (Hp eq_refl) as (Hrr & _ & _ & zc & Hz).
+      destruct (Hnn zc Hz) as (H1 & H3 & _). change (c_rerun cfg) with (t_rerun c) in Hrr. rewrite Hrr, H1, H3. reflexivity. }
+    rewrite Hpend, !andb_true_r.
+    destruct (limit_hit k (length (reported (r_log r)))) eqn:Hh.
+    - (* the limit was reached in this run *)
+      destruct (Hhit eq_refl) as (new0 & x & rest' & Hlg & Hflat & Hmin & Htkb).
+      assert (Hbads : filter (is_bad c) rest = reported (r_log r) ++ filter (is_bad c) rest').
+      { rewrite <- Hflat, filter_app, <- Hpart. reflexivity. }
+      rewrite Hbads, app_length. rewrite (limit_hit_mono _ _ _ Hh).
+      assert (Hk : k = length (reported (r_log r))).
+      { rewrite Hlg, reported_app, app_length. cbn [reported flat_map ev_rep app length].
+        apply limit_hit_exact; [exact Hmin|]. rewrite Hlg, reported_app, app_length in Hh. exact Hh. }
+      rewrite Hk at 1. rewrite firstn_app, Nat.sub_diag, firstn_all. cbn [firstn]. rewrite app_nil_r.
+      apply andb_true_iff. split; [rewrite <- Hflat; apply is_prefix_app|].
+      repeat (apply andb_true_iff; split).
+      + apply zl_eqb_eq. reflexivity.
+      + unfold ends_with_rep. rewrite Hlg, rev_app_distr. reflexivity.
+      + destruct Herr as [He|[zc Hz]]; [|apply (Hnn zc Hz)].
+        exfalso. apply Hok in He. rewrite He in Hh. unfold limit_hit in Hh. cbn in Hh.
+        destruct k; cbn in Hh; discriminate.
+      + apply Z.leb_le. rewrite Hlg, flat_app, app_length. cbn [flat flat_map ev_flat app length]. lia.
+    - (* below the limit: the whole feed from the token on *)
+      destruct (Hnot eq_refl) as [Hflat Htke]. rewrite Hflat in Hpart.
+      rewrite <- Hpart, Hh, Hflat, is_prefix_refl. cbn [andb].
+      apply andb_true_iff; split; [apply andb_true_iff; split|].
+      + apply zl_eqb_eq. reflexivity.
+      + apply Z.eqb_eq. rewrite Htke, Hlen. reflexivity.
+      + destruct (reported (r_log r)) eqn:Hrp.
+        * rewrite (proj2 Hok eq_refl). reflexivity.
+        * destruct Herr as [He|[zc Hz]]; [apply Hok in He; discriminate | apply (Hnn zc Hz)].
+  Qed.
+
+  Lemma chain_spec : forall fuel n adds crons (st : jstate Z),
+    jinv st n ->
+    spec_runs c (j_tok st) n adds (map to_orun (chain inner VFixed cfg fuel n adds crons st)) = true.
+  Proof.
+    induction fuel as [|f IH]; intros n adds crons st Hinv; [reflexivity|].
+    cbn [chain].
+    pose proof (run_spec n st Hinv) as S.
+    destruct (run inner VFixed cfg (zseq 0 n) st) as [r st'] eqn:R. cbn [fst snd] in S.
+    destruct S as (Hs & Htk & Hinv').
+    set (n' := match adds with a :: _ => (n + a)%nat | [] => n end).
+    assert (Hinv'' : jinv st' n').
+    { destruct Hinv' as (H1 & H2 & H3). unfold jinv. split; [subst n'; destruct adds; lia | split; assumption]. }
+    destruct (r_pending r).
+    - cbn [map spec_runs]. rewrite Hs, Htk. cbn [andb]. apply IH. exact Hinv''.
+    - destruct crons as [|cr].
+      + cbn [map spec_runs]. rewrite Hs. reflexivity.
+      + cbn [map spec_runs]. rewrite Hs, Htk. cbn [andb]. apply IH. exact Hinv''.
+  Qed.
+End StrictCase.
+
+Lemma count_pending_map rs : count_pending (map to_orun rs) = pendings rs.
+Proof.
+  unfold count_pending, pendings. induction rs as [|r rs IH]; [reflexivity|].
+  cbn [map filter to_orun or_pending]. destruct (r_pending r); cbn [length]; rewrite IH; reflexivity.
+Qed.
+
+(** job-level cases in the scope of the full spec *)
+Theorem agree_fixed_spec_job c :
+  t_job c = true -> (0 <? t_burst c)%Z = false ->
+  t_log c = true -> t_failcalls c = [] -> (t_killAt c <? 0)%Z = true -> forallb (Z.leb 0) (t_bad c) = true ->
+  (Z.of_nat (Z.to_nat (t_crons c)) + Z.max 0 (retries0 c) < 60)%Z ->
+  agree VFixed c = true -> spec_ok c = true.
+Proof.
+  intros Hj Hb Hlog Hfc Hkill Hbad Hfuel. unfold agree, spec_ok, agree_job, spec_job. rewrite Hj, Hb.
+  intros H. apply andb_true_iff in H. destruct H as [Ho H]. rewrite Ho. cbn [andb].
+  apply andb_true_iff in H. destruct H as [H _]. apply andb_true_iff in H. destruct H as [H _].
+  apply orunlist_eqb_eq in H. rewrite <- H. unfold predict_job.
+  set (n := Z.to_nat (t_n c)). set (adds := map Z.to_nat (t_adds c)). set (crons := Z.to_nat (t_crons c)).
+  set (st0 := j_init (retries0 c)).
+  assert (Hinv : jinv st0 n).
+  { unfold jinv, st0, j_init, clean, last_ok. cbn. split; [lia | split; [auto | discriminate]]. }
+  pose proof (chain_spec c Hlog Hfc Hkill Hbad 60 n adds crons st0 Hinv) as Hs. cbn [st0 j_init j_tok] in Hs.
+  rewrite Hs. cbn [andb].
+  apply andb_true_iff. split.
+  - apply Z.leb_le. rewrite count_pending_map.
+    pose proof (chain_pending_bound (inner_of c) VFixed (cfg_of c) 60 n adds crons st0) as B. exact B.
+  - destruct (chain_last (inner_of c) VFixed (cfg_of c) 60 n adds crons st0) as (rs & r & Hc & Hr).
+    { cbn. exact Hfuel. }
+    rewrite Hc, map_app, rev_app_distr. cbn. rewrite Hr. reflexivity.
+Qed.
+
+(** burst cases: every variant of the model keeps the re-executions within the retries *)
+Theorem agree_spec_burst v c :
+  t_job c = true -> (0 <? t_burst c)%Z = true -> agree v c = true -> spec_ok c = true.
+Proof.
+  intros Hj Hb. unfold agree, spec_ok, agree_burst, spec_burst. rewrite Hj, Hb.
+  intros H. apply andb_true_iff in H. destruct H as [Ho H]. rewrite Ho. cbn [andb].
+  apply andb_true_iff in H. destruct H as [H _]. apply Z.eqb_eq in H. rewrite H.
+  apply Z.leb_le. apply Z.ltb_lt in Hb. unfold predict_burst.
+  pose proof (burst_len_bound (inner_of c) v (cfg_of c) 60 (Z.to_nat (t_n c)) (Z.to_nat (t_burst c)) 0 (j_init (retries0 c))) as B.
+  cbn [j_init j_retries] in B. rewrite Z2Nat.id in B by lia. lia.
+Qed.
